@@ -571,7 +571,8 @@ TREE_B = {"im": ["call", GN.DEEP], "data": ["data"],
           "sub": ["obj", {"deep": ["call", GN.IM], "inner": ["obj", {"leaf": ["call", GN.OK]}]}]}
 TREE_C = {"im": ["call", GN.OK], "sub": ["obj", {"deep": ["call", GN.ECHO], "inner": ["obj", {"leaf": ["call", GN.DEEP]}]}],
           "echo": ["call", GN.IM]}
-TREES = {"A": GN.TREE, "B": TREE_B, "C": TREE_C}
+TREE_D = {"only": ["call", GN.OK]}          # none of the usual names: what was served before is now unknown
+TREES = {"A": GN.TREE, "B": TREE_B, "C": TREE_C, "D": TREE_D}
 SUBS = {"s1": {"deep": ["call", GN.OK], "inner": ["obj", {"leaf": ["call", GN.ECHO]}]},
         "s2": {"deep": ["call", GN.ECHO], "inner": ["obj", {"leaf": ["call", GN.DEEP]}]}}
 REG_NAMES = ["im", "sub.deep", "sub.inner.leaf", "echo", "ok", "svc"]
@@ -617,10 +618,12 @@ class Registry(pipeline.Stream):
                 steps.append(["call", name, args])
             elif r < 0.65:
                 steps.append(["regf", rng.choice(["echo", "ok", "svc", "im", "sub.deep"]), rng.choice(REG_CIDS)])
-            elif r < 0.85:
+            elif r < 0.82:
                 steps.append(["reginst", rng.choice(sorted(TREES))])
-            else:
+            elif r < 0.92:
                 steps.append(["setsub", rng.choice(sorted(SUBS))])
+            else:
+                steps.append(["delattr", rng.choice(["im", "sub", "echo"])])
         return steps
 
     def gen(self, tier, rng):
@@ -636,6 +639,12 @@ class Registry(pipeline.Stream):
                                                ["regf", "svc", GN.ECHO], ["call", "svc", ["kw", {"k": [1]}]]]})
             cases.append({"sver": v, "steps": [["reginst", "A"], ["call", "im", ["pos", []]], ["regf", "im", GN.OK], ["call", "im", ["pos", []]],
                                                ["reginst", "B"], ["call", "im", ["pos", []]]]})
+            # a name that was served stops existing: the instance is replaced by one without it, the attribute is deleted
+            for name in ("im", "sub.deep", "sub.inner.leaf"):
+                cases.append({"sver": v, "steps": [["reginst", "A"], ["call", name, ["pos", []]], ["reginst", "D"], ["call", name, ["pos", []]],
+                                                   ["call", "only", ["pos", []]]]})
+                cases.append({"sver": v, "steps": [["reginst", "A"], ["call", name, ["pos", []]], ["delattr", name.split(".")[0]],
+                                                   ["call", name, ["pos", []]], ["call", name, ["pos", []]]]})
         for _ in range(120 if tier == "quick" else 2500):
             cases.append({"sver": rng.choice([1.0, 2.0]), "steps": self._rand_steps(rng, rng.randint(3, 10))})
         return cases
@@ -669,14 +678,27 @@ class Registry(pipeline.Stream):
                         continue
                     tree = dict(tree, sub=["obj", json.loads(json.dumps(SUBS[st[1]]))])
                     inst[0].sub = rt._make_obj(tree["sub"][1], None)
+                elif st[0] == "delattr":
+                    if inst[0] is None or st[1] not in tree:
+                        continue
+                    tree = {k: v for k, v in tree.items() if k != st[1]}
+                    delattr(inst[0], st[1])
                 else:
                     n0, s0 = len(rt.events), len(seen)
                     a = st[2]
                     meth = getattr(proxy, st[1])
-                    out = outcome((lambda: meth(*a[1])) if a[0] == "pos" else (lambda: meth(**a[1])))
+                    detail = [None]
+
+                    def call():
+                        try:
+                            return meth(*a[1]) if a[0] == "pos" else meth(**a[1])
+                        except self.J.ProtocolError as ex:
+                            detail[0] = ex.args[0] if ex.args else None
+                            raise
+                    out = outcome(call)
                     with rt.lock:
                         log = [e for (_, e) in rt.events[n0:]]
-                    calls.append({"name": st[1], "args": a, "out": out, "log": log, "exchange": seen[s0:],
+                    calls.append({"name": st[1], "args": a, "out": out, "detail": detail[0], "log": log, "exchange": seen[s0:],
                                   "funcs": dict(funcs), "tree": None if tree is None else json.loads(json.dumps(tree))})
         finally:
             rt.close()
@@ -736,5 +758,109 @@ class Registry(pipeline.Stream):
             yield dict(case, steps=st[:i] + st[i + 1:])
 
 
+class Builtins(pipeline.Stream):
+    """oracle only: 'every callable registered on a server' includes callables implemented in C, which have no introspectable
+    signature, no __code__, sometimes no __name__ (functools.partial).  The reference is the callable itself applied to the same
+    arguments.  (Model/Dispatch.v treats a callable as a function of its arguments, so these are inside the theorems' universe;
+    they are outside the correspondence only because their result functions are not in the model's behaviour vocabulary.)"""
+    name = "builtins"
+    model_imports = "Dispatch"
+    case_type = "unit"
+    check_fn = "(fun _ => true)"
+
+    def setup(self):
+        import jsonrpclib
+        import jsonrpclib.config as C
+        self.J, self.C = jsonrpclib, C
+
+    @staticmethod
+    def registry():
+        import functools
+        import math
+        import operator
+        return {"bmax": max, "bmin": min, "babs": abs, "blen": len, "bint": int, "bstr": str, "bsum": sum, "bsorted": sorted,
+                "bpartial": functools.partial(max, 0), "bhypot": math.hypot, "bdivmod": divmod, "bfloor": math.floor,
+                "badd": operator.add, "bconcat": operator.concat, "bjoin": "-".join, "bupper": "abc".upper,
+                "bdictget": {"a": 1, "b": [2]}.get, "bbool": bool, "blist": list, "brepr": repr}
+
+    CALLS = [("bmax", [1, 5, 3]), ("bmax", [[4, 9, 2]]), ("bmin", [2.5, -1]), ("babs", [-7]), ("blen", [[1, 2, 3]]), ("blen", ["héllo"]),
+             ("bint", ["42"]), ("bint", [7.9]), ("bint", []), ("bstr", [12]), ("bstr", []), ("bsum", [[1, 2, 3.5]]), ("bsorted", [[3, 1, 2]]),
+             ("bpartial", [-5]), ("bpartial", [8, 3]), ("bhypot", [3, 4]), ("bdivmod", [17, 5]), ("bfloor", [2.7]), ("badd", [1, 2]),
+             ("bconcat", [[1], [2]]), ("bjoin", [["a", "b"]]), ("bupper", []), ("bdictget", ["b"]), ("bdictget", ["zz", "dflt"]),
+             ("bbool", [[]]), ("bbool", [0.1]), ("blist", ["ab"]), ("brepr", [[1, "x"]])]
+
+    def gen(self, tier, rng):
+        cases = []
+        for sver, cver in itertools.product([1.0, 2.0], [1.0, 2.0]):
+            for how in ("call", "batch"):
+                cases.append({"sver": sver, "cver": cver, "how": how, "calls": [list(c) for c in self.CALLS]})
+        return cases
+
+    def run_impl(self, case):
+        from jsonrpclib.SimpleJSONRPCServer import SimpleJSONRPCDispatcher
+        disp = SimpleJSONRPCDispatcher(config=self.C.Config(version=case["sver"]))
+        reg = self.registry()
+        for n, f in reg.items():
+            disp.register_function(f, n)
+        proxy = self.J.ServerProxy("http://localhost/", transport=_Loopback(disp), config=self.C.Config(version=case["cver"]))
+        outs = []
+        if case["how"] == "call":
+            for (n, a) in case["calls"]:
+                outs.append(outcome(lambda: getattr(proxy, n)(*a)))
+        else:
+            mc = self.J.MultiCall(proxy)
+            for (n, a) in case["calls"]:
+                getattr(mc, n)(*a)
+            try:
+                res = mc()
+                it = iter(res)
+                for _ in case["calls"]:
+                    try:
+                        outs.append(("val", next(it)))
+                    except StopIteration:
+                        outs.append(("exn", "StopIteration"))
+                    except Exception as ex:    # noqa
+                        outs.append(("exn", type(ex).__name__))
+            except Exception as ex:    # noqa
+                outs = [("exn", type(ex).__name__)] * len(case["calls"])
+        return {"outs": outs}
+
+    def oracle(self, case, obs):
+        reg = self.registry()
+        for (n, a), out in zip(case["calls"], obs["outs"]):
+            want = norm(reg[n](*a))
+            if isinstance(want, tuple):
+                want = list(want)
+            want = json.loads(json.dumps(want))
+            if out[0] != "val" or not same(out[1], want):
+                return ("C01:result-not-returned", "%s%r (a callable implemented in C, %s): got %r, the callable returns %r" % (
+                    n, tuple(a), case["how"], out, want))
+        return None
+
+    def encode(self, case, obs):
+        return None
+
+    def nontrivial(self, case, obs):
+        return True
+
+    def kind(self, case, obs):
+        return "builtins / server v%s / client v%s / %s" % (case["sver"], case["cver"], case["how"])
+
+    def describe(self, case, obs):
+        return {"server_version": case["sver"], "client_version": case["cver"], "how": case["how"],
+                "outcomes": ser.to_json([[n, a, o] for (n, a), o in zip(case["calls"], obs["outs"])][:30])}
+
+    def to_replay(self, case):
+        return ser.to_json(case)
+
+    def from_replay(self, j):
+        return ser.from_json(j)
+
+    def shrink(self, case):
+        cs = case["calls"]
+        for i in range(len(cs)):
+            yield dict(case, calls=cs[:i] + cs[i + 1:])
+
+
 def streams():
-    return [Main(), Registry()]
+    return [Main(), Registry(), Builtins()]
